@@ -11,7 +11,13 @@ class Clock:
         c = self.c
         idx = c.newvar("t!%s!%d" % (self.tag, self.i)); self.i += 1
         last = self.reads[-1] if self.reads else None
-        c.add_fact(('clk', self.tag, self.i), lambda: (c.zvars[idx] >= (c.zvars[last] if last is not None else 0)))
+        def fix(model):
+            lo = model.get(last, 0) if last is not None else 0
+            if model.get(idx, 0) < lo: model[idx] = lo
+        if c.symbolic:
+            c.add_fact(('clk', self.tag, self.i), lambda: (c.zvars[idx] >= (c.zvars[last] if last is not None else 0)), fix)
+        else:
+            c.add_fact(('clk', self.tag, self.i), lambda: (c.zvars[idx] >= (c.zvars[last] if last is not None else 0)))
         self.reads.append(idx)
         return c.num(idx)
 
